@@ -165,7 +165,9 @@ def check(ctx, lib, c):
         W.close()
 
 
-def _check(ctx, lib, W, c):
+def _check(ctx, lib, W, c, obs=None):
+    """obs: optional list collecting everything observable through the interface (lengths, wire bytes, verdicts, re-marshalled bytes);
+    C19 runs the same case through the C symbols and through the C++ functions and compares the two lists."""
     kind, comp, sigs = c["kind"], c["comp"], c["sigs"]
     d = W.d
     for n_ in ("vf_lq_marshalled_length", "vf_lq_unmarshal", "vf_lq_sizeof"):
@@ -245,6 +247,8 @@ def _check(ctx, lib, W, c):
         d.vf_lq_marshal(LQK[kind], buf, obj, 1 if comp else 0)
     raw = ctypes.string_at(buf, mlen + 32)
     wire, guard = raw[:mlen], raw[mlen:]
+    if obs is not None:
+        obs += [("marshalled_length", mlen), ("wire", raw)]
     expect(guard == b"\xEE" * 32, sig_ + "/marshal-overrun", "marshal wrote beyond get_marshalled_length bytes")
     expect(b"\xEE\xEE\xEE\xEE\xEE\xEE\xEE\xEE" not in wire or kind == "lq_msk", sig_ + "/marshal-underrun", "marshal left part of the buffer unwritten")
     if kind == "sk":
@@ -280,6 +284,25 @@ def _check(ctx, lib, W, c):
             return d.vf_wk_unmarshal(WKK[kind], o, dbuf, 1 if comp else 0, 1 if checked else 0) != 0
         return d.vf_lq_unmarshal(LQK[kind], o, dbuf, 1 if comp else 0, 1 if checked else 0) != 0
     ok = unm(new, True)
+    if obs is not None:
+        # verdicts of both modes on the (possibly corrupted) buffer, and what an accepted object marshals to
+        def fresh():
+            if kind in ("params", "sk"):
+                o = W.params_new(nslots) if kind == "params" else W.sk_new(nslots)
+                obs.append(("set_length", d.vf_wk_length_from(WKK[kind], o, dbuf, len(data), 1 if comp else 0, 0)))
+                return o
+            return W.blob(WKK[kind]) if iswk else W.buf(d.vf_lq_sizeof(LQK[kind]))
+        for checked in (True, False):
+            o = fresh()
+            v = unm(o, checked)
+            obs.append(("unmarshal", checked, v))
+            if v:
+                b_ = W.buf(mlen)
+                if iswk:
+                    d.vf_wk_marshal(WKK[kind], b_, o, 1 if comp else 0)
+                else:
+                    d.vf_lq_marshal(LQK[kind], b_, o, 1 if comp else 0)
+                obs.append(("remarshal", checked, ctypes.string_at(b_, mlen)))
     ctx.count(c, corrupt != "none" or nslots >= 2 or kind.startswith("lq"), "%s-%s-%s" % (kind, "c" if comp else "u", corrupt))
     if corrupt != "none":
         expect(not ok, sig_ + "/accepted-corrupted/" + corrupt, lambda: "checked unmarshal accepted a buffer whose element at offset %d is invalid (%s)" % (layout[c["which"] % len(layout)][0], corrupt))
